@@ -875,7 +875,9 @@ where
                 data_section.extend_from_slice(&submesh_data);
             }
 
-            current_offset += (self.submeshes.len() * 40) as u32; // Each submesh is 40 bytes
+            // Each submesh is 48 bytes on disk (see `SkinSubmesh::write`):
+            // 10 x u16 (incl. padding) + center + sort_center + bounding_radius
+            current_offset += (self.submeshes.len() * 48) as u32;
             submeshes
         } else {
             M2Array::new(0, 0)
